@@ -13,6 +13,7 @@ META = {
 META["technique"] += "; " + 'generic pack G on the anchored files (optional-flag shift, closures outliving a loop iteration, single-pass iterables consumed twice, %-templates built from data, in-place writes to class-level / memoised objects, generators mutating what they yielded, memo keys that are projections)'
 META["technique"] += "; who-may-call rule for ownership changes (lchown / follow_symlinks=False only)"
 META["level"] += " (R4) every chown-family call in fs/ops.py is one that does not follow symlinks."
+META["level"] += " R1 also: the staged copy is handed to ensure_perms without a live object, and on that side ensure_perms enforces every attribute (shared clause with C18.R1)."
 MOD = "pkgcore.fs.ops"
 
 
